@@ -21,12 +21,47 @@ func (e *Env) Prog(mod string) *Program {
 	if p, ok := e.progs[mod]; ok {
 		return p
 	}
-	p, err := LoadModule(mod, e.overlay, true)
+	p, err := LoadModule(mod, withCanary(mod, e.overlay), true)
 	if err != nil {
 		panic(loadError{err})
 	}
 	e.progs[mod] = p
 	return p
+}
+
+// Preload loads several modules concurrently.
+func (e *Env) Preload(mods ...string) {
+	type res struct {
+		mod string
+		p   *Program
+		err error
+	}
+	ch := make(chan res, len(mods))
+	n := 0
+	for _, m := range mods {
+		if _, ok := e.progs[m]; ok {
+			continue
+		}
+		n++
+		go func(m string) {
+			p, err := LoadModule(m, withCanary(m, e.overlay), true)
+			ch <- res{m, p, err}
+		}(m)
+	}
+	var firstErr error
+	for i := 0; i < n; i++ {
+		r := <-ch
+		if r.err != nil {
+			if firstErr == nil {
+				firstErr = r.err
+			}
+			continue
+		}
+		e.progs[r.mod] = r.p
+	}
+	if firstErr != nil {
+		panic(loadError{firstErr})
+	}
 }
 
 func (e *Env) Model(mod string) *Model {
